@@ -136,11 +136,36 @@ struct Script {
     dest: Dest,
     dec: Dec,
     wire: Vec<Resp>,
+    /// the temp file takes this many bytes; the write of the next one fails (RLIMIT_FSIZE in the child)
+    wfault: Option<u64>,
+    /// every write succeeds, `fsync` fails (the temp path is planted as a symlink to /dev/null: EINVAL)
+    sync_fault: bool,
+}
+
+/// Deterministic filler for large bodies (`g<seed>.<len>` on the line protocol; twin of `genBytes`).
+fn gen_bytes(seed: u8, len: usize) -> Vec<u8> {
+    (0..len).map(|i| ((i / 61) * 37 + seed as usize + i % 7) as u8).collect()
+}
+/// hex, or `g<seed>.<len>` when the bytes are a generated filler of at least 2 KiB
+fn body_word(b: &[u8]) -> String {
+    if b.len() >= 2048 && b == &gen_bytes(b[0], b.len())[..] {
+        format!("g{}.{}", b[0], b.len())
+    } else {
+        hex(b)
+    }
+}
+fn parse_body(w: &str) -> Option<Vec<u8>> {
+    if let Some(r) = w.strip_prefix('g') {
+        let (a, b) = r.split_once('.')?;
+        Some(gen_bytes(a.parse::<u64>().ok()? as u8, b.parse().ok()?))
+    } else {
+        unhex(w)
+    }
 }
 
 fn resp_word(r: &Resp) -> String {
     match r {
-        Resp::Chunk(b, l) => format!("c:{}:{}", hex(b), *l as u8),
+        Resp::Chunk(b, l) => format!("c:{}:{}", body_word(b), *l as u8),
         Resp::Error => "e".into(),
         Resp::Cut => "x".into(),
     }
@@ -152,7 +177,7 @@ fn parse_resp(w: &str) -> Option<Resp> {
         _ => {
             let p: Vec<&str> = w.split(':').collect();
             if p.len() == 3 && p[0] == "c" {
-                Some(Resp::Chunk(unhex(p[1])?, p[2] == "1"))
+                Some(Resp::Chunk(parse_body(p[1])?, p[2] == "1"))
             } else {
                 None
             }
@@ -163,7 +188,7 @@ fn parse_resp(w: &str) -> Option<Resp> {
 impl Script {
     fn words(&self) -> String {
         let mut s = format!(
-            "{} {} {} {} {} {} {} - {} wire",
+            "{} {} {} {} {} {} {} - {} {} wire",
             self.puller.name(),
             if self.zstd { "zstd" } else { "none" },
             if self.beve { "beve" } else { "raw" },
@@ -184,8 +209,9 @@ impl Script {
             match &self.dec {
                 Dec::Na => "-".to_string(),
                 Dec::Err => "err".to_string(),
-                Dec::Ok(b) => hex(b),
+                Dec::Ok(b) => body_word(b),
             },
+            if self.sync_fault { "sync".to_string() } else { self.wfault.map(|k| k.to_string()).unwrap_or("-".into()) },
         );
         for r in &self.wire {
             s.push(' ');
@@ -195,11 +221,11 @@ impl Script {
     }
     /// Parse SCRIPT words; returns the script and the words after `::`.
     fn parse(w: &[&str]) -> Option<(Script, Vec<String>)> {
-        if w.len() < 10 || w[9] != "wire" {
+        if w.len() < 11 || w[10] != "wire" {
             return None;
         }
         let mut wire = vec![];
-        let mut i = 10;
+        let mut i = 11;
         while i < w.len() && w[i] != "::" {
             wire.push(parse_resp(w[i])?);
             i += 1;
@@ -227,9 +253,11 @@ impl Script {
                 dec: match w[8] {
                     "-" => Dec::Na,
                     "err" => Dec::Err,
-                    h => Dec::Ok(unhex(h)?),
+                    h => Dec::Ok(parse_body(h)?),
                 },
                 wire,
+                wfault: w[9].parse().ok(),
+                sync_fault: w[9] == "sync",
             },
             after,
         ))
@@ -253,7 +281,7 @@ impl Script {
     /// SPECIFICATION (property text, evaluated here independently of the Lean model): the content that
     /// must be published; `None` = the script is a failing one and nothing may be published.
     fn expected_content(&self) -> Option<Vec<u8>> {
-        if self.open != Open::Ok || !self.puller.tags_ok(self.zstd, self.beve) || self.dest == Dest::Dir {
+        if self.open != Open::Ok || !self.puller.tags_ok(self.zstd, self.beve) || self.dest == Dest::Dir || self.sync_fault {
             return None;
         }
         if self.puller.verifies() && !self.verify_ok {
@@ -268,13 +296,18 @@ impl Script {
         } else {
             wb
         };
-        if self.puller.has_trailer() {
+        let content = if self.puller.has_trailer() {
             if self.trailer > logical.len() {
                 return None;
             }
-            Some(logical[..logical.len() - self.trailer].to_vec())
+            logical[..logical.len() - self.trailer].to_vec()
         } else {
-            Some(logical)
+            logical
+        };
+        // a write the file system refuses makes the pull a failing one
+        match self.wfault {
+            Some(k) if content.len() as u64 > k => None,
+            _ => Some(content),
         }
     }
 }
@@ -504,14 +537,27 @@ fn call_puller(
 }
 
 fn child_main(a: &[String]) -> ! {
-    // child <puller> <addr> <resource> <dest> <trailer> <verify>
+    // child <puller> <addr> <resource> <dest> <trailer> <verify> [<file size limit>]
+    if let Some(lim) = a.get(6).and_then(|x| x.parse::<u64>().ok()) {
+        // the file system refuses to grow any file past `lim` bytes: write(2) is cut short at the limit
+        // and then fails with EFBIG (SIGXFSZ ignored)
+        unsafe {
+            libc::signal(libc::SIGXFSZ, libc::SIG_IGN);
+            let rl = libc::rlimit { rlim_cur: lim as libc::rlim_t, rlim_max: lim as libc::rlim_t };
+            if libc::setrlimit(libc::RLIMIT_FSIZE, &rl) != 0 {
+                println!("ret setup-failed");
+                std::process::exit(3);
+            }
+        }
+    }
     let p = Puller::parse(&a[0]).expect("puller");
     let addr: SocketAddr = a[1].parse().expect("addr");
     let rt = tokio::runtime::Builder::new_current_thread().enable_all().build().unwrap();
     let seen = Arc::new(Mutex::new(Seen::default()));
-    let r = call_puller(&rt, p, addr, &a[2], Path::new(&a[3]), a[4].parse().unwrap(), a[5] == "ok", seen);
+    let r = call_puller(&rt, p, addr, &a[2], Path::new(&a[3]), a[4].parse().unwrap(), a[5] == "ok", seen.clone());
     let mut o = std::io::stdout();
-    let _ = writeln!(o, "ret {}", if r.is_ok() { "ok" } else { "err" });
+    let sn = seen.lock().unwrap().clone();
+    let _ = writeln!(o, "ret {} seen {} trailer {}", if r.is_ok() { "ok" } else { "err" }, digest(&sn.digest), hex(&sn.trailer));
     let _ = o.flush();
     std::process::exit(0);
 }
@@ -522,6 +568,28 @@ fn tmp_of(dest: &Path) -> PathBuf {
     let mut n = dest.file_name().unwrap().to_os_string();
     n.push(".svspart");
     dest.with_file_name(n)
+}
+
+fn prepare_sc(dir: &Path, sc: &Script) -> PathBuf {
+    let dest = prepare(dir, sc.dest);
+    if sc.sync_fault {
+        let t = tmp_of(&dest);
+        let _ = std::fs::remove_file(&t);
+        std::os::unix::fs::symlink("/dev/null", &t).expect("plant temp symlink");
+    }
+    dest
+}
+
+/// Can the fsync fault be injected here? (`fsync` on /dev/null must fail.)
+fn fsync_on_devnull_fails() -> bool {
+    match std::fs::OpenOptions::new().write(true).open("/dev/null") {
+        Ok(mut f) => f.write_all(b"x").is_ok() && f.sync_all().is_err(),
+        Err(_) => false,
+    }
+}
+
+fn tmp_present(dest: &Path) -> bool {
+    std::fs::symlink_metadata(tmp_of(dest)).is_ok()
 }
 
 fn prepare(dir: &Path, d: Dest) -> PathBuf {
@@ -586,7 +654,7 @@ fn oracles(out: &mut Out, sc: &Script, o: &Obs, op: &str) {
     let exp = sc.expected_content();
     let ops = [op.to_string()];
     match (&exp, o.ok) {
-        (None, true) => out.oracle_fail(&format!("commit.{p}.ok-on-failing-script"), "the pull returned Ok although the script is a failing one (producer error / cut / rejected / short / incompatible)", &ops),
+        (None, true) => out.oracle_fail(&format!("commit.{p}.ok-on-failing-script"), "the pull returned Ok although the script is a failing one (producer error / cut / rejected / short / incompatible / write refused)", &ops),
         (Some(_), false) => out.oracle_fail(&format!("commit.{p}.err-on-complete-stream"), "the pull returned Err although the whole stream arrived and verification accepted", &ops),
         _ => {}
     }
@@ -653,6 +721,8 @@ struct Ctx {
     exe: PathBuf,
     n: u64,
     strace_ok: bool,
+    /// fsync on /dev/null fails here, so a sync fault can be planted
+    syncfault_ok: bool,
     /// also kill on entry to the N-th write(2) of any thread, sockets included (thorough tier)
     anywrite: bool,
 }
@@ -665,17 +735,24 @@ impl Ctx {
 
     fn run_inproc(&mut self, sc: &Script, addr: SocketAddr, resource: &str) -> Obs {
         let (_, dir) = self.fresh();
-        let dest = prepare(&dir, sc.dest);
+        let dest = prepare_sc(&dir, sc);
         let seen = Arc::new(Mutex::new(Seen::default()));
         let r = call_puller(&self.rt, sc.puller, addr, resource, &dest, sc.trailer, sc.verify_ok, seen.clone());
-        let o = Obs { ok: r.is_ok(), dest: dest_state(&dest, sc.dest), tmp: tmp_of(&dest).exists(), seen: seen.lock().unwrap().clone() };
+        let o = Obs { ok: r.is_ok(), dest: dest_state(&dest, sc.dest), tmp: tmp_present(&dest), seen: seen.lock().unwrap().clone() };
         let _ = std::fs::remove_dir_all(&dir);
         o
     }
 
     fn exec_script(&mut self, out: &mut Out, idx: &str, sc: &Script, flavour: u8) {
+        if sc.sync_fault && !self.syncfault_ok {
+            out.count("syncfault.skipped-not-injectable");
+            return;
+        }
         let op = format!("script {} {}", idx, sc.words());
         out.begin(&op);
+        if sc.wfault.is_some() {
+            return self.exec_wfault(out, idx, sc, &op, flavour);
+        }
         let (name, _) = self.fresh();
         self.fake.register(&name, sc, flavour);
         let o = self.run_inproc(sc, self.fake.addr, &name);
@@ -683,6 +760,40 @@ impl Ctx {
         oracles(out, sc, &o, &op);
         count_case(out, sc, "script");
         out.case(&op, &obs_line(idx, sc, &o), nontrivial(sc));
+    }
+
+    /// A script with a write fault: the pull runs in a child whose file-size limit is the fault position.
+    fn exec_wfault(&mut self, out: &mut Out, idx: &str, sc: &Script, op: &str, flavour: u8) {
+        let (name, dir) = self.fresh();
+        let dest = prepare(&dir, sc.dest);
+        self.fake.register(&name, sc, flavour);
+        let mut c = Command::new(&self.exe);
+        c.arg("child").arg(sc.puller.name()).arg(self.fake.addr.to_string()).arg(&name).arg(&dest);
+        c.arg(sc.trailer.to_string()).arg(if sc.verify_ok { "ok" } else { "rej" }).arg(sc.wfault.unwrap().to_string());
+        c.stdin(Stdio::null()).stdout(Stdio::piped()).stderr(Stdio::null()).env("RUST_BACKTRACE", "0");
+        let mut child = c.spawn().expect("spawn child");
+        let status = wait_deadline(&mut child, Duration::from_secs(60));
+        let mut so = String::new();
+        if let Some(mut o) = child.stdout.take() {
+            let _ = o.read_to_string(&mut so);
+        }
+        self.fake.unregister(&name);
+        let w = words(&so);
+        if status.is_none() || w.len() < 6 || (w[1] != "ok" && w[1] != "err") {
+            out.count("wfault.child-did-not-finish");
+            let _ = std::fs::remove_dir_all(&dir);
+            return;
+        }
+        let o = Obs { ok: w[1] == "ok", dest: dest_state(&dest, sc.dest), tmp: tmp_present(&dest), seen: Seen::default() };
+        let _ = std::fs::remove_dir_all(&dir);
+        oracles(out, sc, &o, op);
+        count_case(out, sc, "wfault");
+        out.count(&format!("wfault.{}", if sc.expected_content().is_some() { "limit-not-reached" } else { "write-refused" }));
+        let mut line = format!("{} ret {} dest {} tmp {}", idx, w[1], show_dest(&o.dest), o.tmp as u8);
+        if sc.puller.has_trailer() && o.ok {
+            line.push_str(&format!(" seen {} trailer {}", w[3], w[5]));
+        }
+        out.case(op, &line, true);
     }
 }
 
@@ -699,6 +810,10 @@ fn count_case(out: &mut Out, sc: &Script, kind: &str) {
         "open-failed"
     } else if !sc.puller.tags_ok(sc.zstd, sc.beve) {
         "tags-incompatible"
+    } else if sc.sync_fault && (Script { sync_fault: false, ..sc.clone() }).expected_content().is_some() {
+        "fsync-refused"
+    } else if sc.wfault.is_some() && sc.expected_content().is_none() && (Script { wfault: None, ..sc.clone() }).expected_content().is_some() {
+        "write-refused"
     } else if sc.payload().is_none() {
         match sc.wire.iter().find(|r| !matches!(r, Resp::Chunk(_, false))) {
             Some(Resp::Error) => "producer-error",
@@ -713,6 +828,8 @@ fn count_case(out: &mut Out, sc: &Script, kind: &str) {
         "short-trailer"
     } else if sc.dest == Dest::Dir {
         "rename-refused"
+    } else if sc.expected_content().is_none() {
+        "write-refused"
     } else {
         "complete"
     };
@@ -1044,7 +1161,7 @@ impl Ctx {
             }
         };
         // end state as in the in-process runs
-        let o = Obs { ok: r.ret == Some(true), dest: dest_state(&dest, sc.dest), tmp: tmp_of(&dest).exists(), seen: Seen::default() };
+        let o = Obs { ok: r.ret == Some(true), dest: dest_state(&dest, sc.dest), tmp: tmp_present(&dest), seen: Seen::default() };
         oracles(out, sc, &o, &op);
         let _ = std::fs::remove_dir_all(&dir);
         count_case(out, sc, "trace");
@@ -1250,7 +1367,7 @@ fn make_script(p: Puller, zstd: bool, logical: &[u8], sizes: &[usize], fault: Op
     let wire_bytes = if zstd { zstd_of(logical) } else { logical.to_vec() };
     let cs = split_at_sizes(&wire_bytes, sizes);
     let wire = wire_of(&cs, fault, last_on_empty);
-    let mut sc = Script { puller: p, zstd, beve: true, open: Open::Ok, verify_ok: true, trailer: 0, dest: Dest::None, dec: Dec::Na, wire };
+    let mut sc = Script { puller: p, zstd, beve: true, open: Open::Ok, verify_ok: true, trailer: 0, dest: Dest::None, dec: Dec::Na, wire, wfault: None, sync_fault: false };
     sc.dec = dec_for(&sc);
     sc
 }
@@ -1446,7 +1563,7 @@ fn gen_and_run(args: &Args, out: &mut Out, ctx: &mut Ctx) {
                 }
                 let r = Real { writer: rng.chance(1, 2), chunk, fail: f, depth: rng.below(5) as usize, payload: payload.clone() };
                 let (wire, dec) = real_wire(&r, zstd);
-                let mut sc = Script { puller: p, zstd, beve: false, open: Open::Ok, verify_ok: true, trailer: if p.has_trailer() { 8 } else { 0 }, dest: *rng.pick(&[Dest::None, Dest::Old]), dec, wire };
+                let mut sc = Script { puller: p, zstd, beve: false, open: Open::Ok, verify_ok: true, trailer: if p.has_trailer() { 8 } else { 0 }, dest: *rng.pick(&[Dest::None, Dest::Old]), dec, wire, wfault: None, sync_fault: false };
                 if p.verifies() && f.is_none() && rng.chance(1, 3) {
                     sc.verify_ok = false;
                 }
@@ -1478,6 +1595,113 @@ fn gen_and_run(args: &Args, out: &mut Out, ctx: &mut Ctx) {
             for sc in scripts {
                 ctx.exec_value(out, &next("v"), asyn, &sc, enc.len());
             }
+        }
+    }
+
+    // (G) write-side faults: the file system refuses a write (EFBIG under RLIMIT_FSIZE in the pulling child;
+    //     stands for ENOSPC / EDQUOT / EIO too). The limit sweeps the first byte, every chunk boundary +-1,
+    //     the end of the content +-1 and the buffer sizes 8 KiB / 64 KiB / 1 MiB +-1.
+    {
+        let mut run_limits = |ctx: &mut Ctx, out: &mut Out, base: &Script, limits: &[u64], dests: &[Dest]| {
+            let mut ls: Vec<u64> = limits.to_vec();
+            ls.sort();
+            ls.dedup();
+            for (j, l) in ls.iter().enumerate() {
+                let mut sc = base.clone();
+                sc.wfault = Some(*l);
+                sc.dest = dests[j % dests.len()];
+                ctx.exec_script(out, &next("w"), &sc, 0);
+            }
+        };
+        let around = |xs: &[usize]| -> Vec<u64> { xs.iter().flat_map(|x| [x.saturating_sub(1) as u64, *x as u64, *x as u64 + 1]).collect() };
+        // written size of the complete pull = where the limit stops biting
+        let wlen = |sc: &Script| sc.expected_content().map(|c| c.len()).unwrap_or(0);
+        for &p in &PULLERS {
+            for zstd in [false, true] {
+                if !p.tags_ok(zstd, true) {
+                    continue;
+                }
+                // small: 3 chunks, hex on the line
+                let n = 1700 + rng.below(200) as usize;
+                let logical: Vec<u8> = rng.bytes(n).iter().map(|b| b | 1).collect();
+                let mut base = make_script(p, zstd, &logical, &[600, 900, 300], None, rng.chance(1, 2));
+                base.trailer = if p.has_trailer() { 40 } else { 0 };
+                let w = wlen(&base);
+                let mut lim = around(&[600, 1500, w]);
+                lim.extend([0, 1]);
+                run_limits(ctx, out, &base, &lim, &[Dest::None, Dest::Old]);
+                if thorough {
+                    run_limits(ctx, out, &base, &lim, &[Dest::Old, Dest::None]);
+                }
+                // medium: 70 000 bytes in chunks of 30 000 — io::copy's 8 KiB, a 64 KiB buffer
+                if p != Puller::BeveZst {
+                    let logical = gen_bytes(3 + zstd as u8, 70_000);
+                    let mut base = make_script(p, zstd, &logical, &[30_000, 30_000, 10_000], None, false);
+                    base.trailer = if p.has_trailer() { 1000 } else { 0 };
+                    let w = wlen(&base);
+                    let mut lim = around(&[8192, 65536, w]);
+                    if thorough {
+                        lim.extend(around(&[30_000, 60_000, 16384]));
+                    }
+                    run_limits(ctx, out, &base, &lim, &[Dest::Old, Dest::None]);
+                } else {
+                    // the raw .beve.zst copy writes the compressed bytes: incompressible content
+                    let logical: Vec<u8> = rng.bytes(9500);
+                    let base = make_script(p, zstd, &logical, &[5000, 3000, 4000], None, false);
+                    let w = wlen(&base);
+                    run_limits(ctx, out, &base, &around(&[8192, w]), &[Dest::Old, Dest::None]);
+                }
+                // large: just over 1 MiB (a 1 MiB write-behind buffer fills once, the tail stays buffered)
+                let large = thorough || (p == Puller::File) || (!zstd && matches!(p, Puller::FileAsync | Puller::Trailer));
+                if large && p != Puller::BeveZst {
+                    let logical = gen_bytes(9, (1 << 20) + 5000);
+                    let mut base = make_script(p, zstd, &logical, &[400_000], None, false);
+                    base.trailer = if p.has_trailer() { 16 } else { 0 };
+                    let w = wlen(&base);
+                    let mut lim = around(&[1 << 20]);
+                    lim.extend([w as u64 - 1, w as u64]);
+                    run_limits(ctx, out, &base, &lim, &[Dest::None, Dest::Old]);
+                }
+            }
+        }
+        // fsync reports an error after every write went through: nothing may be renamed
+        for &p in &PULLERS {
+            for zstd in [false, true] {
+                if !p.tags_ok(zstd, true) {
+                    continue;
+                }
+                let n = 9000 + rng.below(500) as usize;
+                let logical: Vec<u8> = rng.bytes(n).iter().map(|b| b | 1).collect();
+                for dest in [Dest::None, Dest::Old] {
+                    let mut sc = make_script(p, zstd, &logical, &[4000, 8300], None, dest == Dest::Old);
+                    sc.dest = dest;
+                    sc.trailer = if p.has_trailer() { 12 } else { 0 };
+                    sc.sync_fault = true;
+                    ctx.exec_script(out, &next("f"), &sc, 0);
+                }
+            }
+        }
+        // faults combined with the other faults (random)
+        for _ in 0..(if thorough { 200 } else { 40 }) {
+            let p = *rng.pick(&PULLERS);
+            let zstd = if p == Puller::BeveZst || p == Puller::Beve { true } else { rng.chance(1, 3) };
+            let n = 1 + rng.below(3000) as usize;
+            let logical: Vec<u8> = rng.bytes(n).iter().map(|b| b | 1).collect();
+            let sizes = [1 + rng.below(900) as usize, 1 + rng.below(900) as usize];
+            let nch = split_at_sizes(&if zstd { zstd_of(&logical) } else { logical.clone() }, &sizes).len();
+            let fault = match rng.below(4) {
+                0 => Some((rng.below(nch as u64 + 1) as usize, Resp::Error)),
+                1 => Some((rng.below(nch as u64 + 1) as usize, Resp::Cut)),
+                _ => None,
+            };
+            let mut sc = make_script(p, zstd, &logical, &sizes, fault, rng.chance(1, 3));
+            sc.dest = *rng.pick(&[Dest::None, Dest::Old, Dest::OldStale, Dest::Dir]);
+            sc.verify_ok = !rng.chance(1, 6);
+            if p.has_trailer() {
+                sc.trailer = rng.below(n as u64 + 2) as usize;
+            }
+            sc.wfault = Some(rng.below(n as u64 + 40));
+            ctx.exec_script(out, &next("w"), &sc, 0);
         }
     }
 
@@ -1575,6 +1799,8 @@ fn replay(ops: Vec<String>, out: &mut Out, ctx: &mut Ctx) {
                         dest: Dest::None,
                         dec: Dec::Na,
                         wire,
+                        wfault: None,
+                        sync_fault: false,
                     };
                     ctx.exec_value(out, &idx, w[2] == "async", &sc, w[7].parse().unwrap_or(0));
                 }
@@ -1602,6 +1828,7 @@ fn main() {
         exe: std::env::current_exe().expect("current exe"),
         n: 0,
         strace_ok: strace_available(),
+        syncfault_ok: fsync_on_devnull_fails(),
         anywrite: args.thorough(),
     };
     out.extra.insert("strace".into(), serde_json::json!(ctx.strace_ok));
